@@ -25,6 +25,22 @@ type StructV struct {
 
 type TupleV struct{ E []SVal }
 
+// LocV is a struct value located in the heap (an embedded struct field or the
+// pointee of a struct pointer used as a value in a contract expression).
+type LocV struct {
+	Ref Term
+	T   types.Type
+	st  *State
+}
+
+func (l LocV) load() SVal {
+	v, err := l.st.loadStruct(l.Ref, l.T)
+	if err != nil {
+		panic(execError{"loading located struct: " + err.Error()})
+	}
+	return v
+}
+
 // AddrV is the address of a non-struct cell.
 type AddrV struct {
 	Kind  string     // "local" | "field" | "elem" | "global"
@@ -141,6 +157,8 @@ func flatten(v SVal) []Term {
 			out = append(out, flatten(f)...)
 		}
 		return out
+	case LocV:
+		return flatten(x.load())
 	}
 	panic(fmt.Sprintf("flatten: unsupported value %T", v))
 }
